@@ -61,50 +61,104 @@ theorem UInt8_and_80 (c : UInt8) : (c &&& 0x80 != 0) = true ↔ 128 ≤ c.toNat 
 
 /-! ## the result of `scan_string` -/
 
+/-- `body` contains no unescaped quotation mark and does not end in a lone backslash: it is the
+body of a string token (the bytes between the quotes) -/
+inductive StrBody : Bytes → Prop
+  | nil : StrBody []
+  | plain (c : UInt8) (r : Bytes) : c ≠ 0x22 → c ≠ 0x5C → StrBody r → StrBody (c :: r)
+  | esc (d : UInt8) (r : Bytes) : StrBody r → StrBody (0x5C :: d :: r)
+
+theorem StrBody.plains : ∀ (p : Bytes) (b : Bytes), (∀ x ∈ p, x ≠ 0x22 ∧ x ≠ 0x5C) → StrBody b → StrBody (p ++ b)
+  | [], _, _, h => h
+  | a :: p, b, hp, h =>
+    StrBody.plain a (p ++ b) (hp a (by simp)).1 (hp a (by simp)).2
+      (StrBody.plains p b (fun x hx => hp x (by simp [hx])) h)
+
+/-- the token boundaries are determined by the bytes -/
+theorem StrBody.unique : ∀ {b1 b2 r1 r2 : Bytes}, StrBody b1 → StrBody b2 →
+    b1 ++ 0x22 :: r1 = b2 ++ 0x22 :: r2 → b1 = b2 ∧ r1 = r2 := by
+  intro b1 b2 r1 r2 h1
+  induction h1 generalizing b2 with
+  | nil =>
+    intro h2 e
+    cases h2 with
+    | nil => simp at e; exact ⟨rfl, e⟩
+    | plain c r hq _ _ => simp at e; exact absurd e.1.symm hq
+    | esc d r _ => simp at e
+  | plain c r hq hb _ ih =>
+    intro h2 e
+    cases h2 with
+    | nil => simp at e; exact absurd e.1 hq
+    | plain c' r' _ _ h2' =>
+      simp at e
+      obtain ⟨rfl, e⟩ := e
+      obtain ⟨rfl, rfl⟩ := ih h2' e
+      exact ⟨rfl, rfl⟩
+    | esc d r' _ => simp at e; exact absurd e.1 hb
+  | esc d r _ ih =>
+    intro h2 e
+    cases h2 with
+    | nil => simp at e
+    | plain c' r' _ hb' _ => simp at e; exact absurd e.1.symm hb'
+    | esc d' r' h2' =>
+      simp at e
+      obtain ⟨rfl, e⟩ := e
+      obtain ⟨rfl, rfl⟩ := ih h2' e
+      exact ⟨rfl, rfl⟩
+
 /-- what a successful `scan_string` found: the bytes before the closing quote (`body`), what
 follows it, well-formedness when `check_utf8`, and the `hasesc` flag -/
 def ScanOk (chk : Bool) (s : Bytes) (n0 : Nat) (e0 : Bool) (n : Nat) (e : Bool) : Prop :=
   ∃ body rest, s = body ++ 0x22 :: rest ∧ n = n0 + body.length ∧ (chk = true → WFS body) ∧
-    e = (e0 || decide (0x5C ∈ body))
+    e = (e0 || decide (0x5C ∈ body)) ∧ StrBody body
 
 theorem ScanOk.extend {chk : Bool} {p s' : Bytes} {n0 : Nat} {e0 : Bool} {n : Nat} {e : Bool}
-    (h : ScanOk chk s' (n0 + p.length) (e0 || decide (0x5C ∈ p)) n e) (hp : chk = true → WFS p) :
+    (h : ScanOk chk s' (n0 + p.length) (e0 || decide (0x5C ∈ p)) n e) (hp : chk = true → WFS p)
+    (hsb : ∀ b r, s' = b ++ 0x22 :: r → StrBody b → StrBody (p ++ b)) :
     ScanOk chk (p ++ s') n0 e0 n e := by
-  obtain ⟨body, rest, split, len, wf, esc⟩ := h
+  obtain ⟨body, rest, split, len, wf, esc, sb⟩ := h
   refine ⟨p ++ body, rest, by rw [split, List.append_assoc], by rw [len, List.length_append]; omega,
-    fun hc => WFS_append (hp hc) (wf hc), ?_⟩
+    fun hc => WFS_append (hp hc) (wf hc), ?_, hsb body rest split sb⟩
   rw [esc]
   simp only [List.mem_append, Bool.decide_or, Bool.or_assoc]
 
-/-- one plain (non-backslash) chunk `p` consumed -/
+/-- one plain (no backslash, no quote) chunk `p` consumed -/
 theorem ScanOk.plain {chk : Bool} {p s' : Bytes} {n0 : Nat} {e0 : Bool} {n : Nat} {e : Bool}
-    (h : ScanOk chk s' (n0 + p.length) e0 n e) (hp : chk = true → WFS p) (hb : (0x5C : UInt8) ∉ p) :
+    (h : ScanOk chk s' (n0 + p.length) e0 n e) (hp : chk = true → WFS p)
+    (hb : ∀ x ∈ p, x ≠ 0x22 ∧ x ≠ 0x5C) :
     ScanOk chk (p ++ s') n0 e0 n e := by
-  refine ScanOk.extend ?_ hp
-  have : decide ((0x5C : UInt8) ∈ p) = false := by simpa using hb
+  refine ScanOk.extend ?_ hp (fun b _ _ sb => StrBody.plains p b hb sb)
+  have : decide ((0x5C : UInt8) ∈ p) = false := by
+    simp only [decide_eq_false_iff_not]; exact fun hm => (hb _ hm).2 rfl
   rw [this, Bool.or_false]; exact h
 
 /-- a chunk containing a backslash consumed, flag set -/
 theorem ScanOk.escaped {chk : Bool} {p s' : Bytes} {n0 : Nat} {e0 : Bool} {n : Nat} {e : Bool}
-    (h : ScanOk chk s' (n0 + p.length) true n e) (hp : chk = true → WFS p) (hb : (0x5C : UInt8) ∈ p) :
+    (h : ScanOk chk s' (n0 + p.length) true n e) (hp : chk = true → WFS p) (hb : (0x5C : UInt8) ∈ p)
+    (hsb : ∀ b r, s' = b ++ 0x22 :: r → StrBody b → StrBody (p ++ b)) :
     ScanOk chk (p ++ s') n0 e0 n e := by
-  refine ScanOk.extend ?_ hp
+  refine ScanOk.extend ?_ hp hsb
   have : decide ((0x5C : UInt8) ∈ p) = true := by simpa using hb
   rw [this, Bool.or_true]; exact h
 
-theorem chunk_no_backslash {c : UInt8} {rest : Bytes} {k : Nat} (hc : 128 ≤ c.toNat)
-    (hk : k ≠ 0) (kwf : WF (ofU8 ((c :: rest).take k))) : (0x5C : UInt8) ∉ (c :: rest).take k := by
+theorem chunk_no_ascii {c : UInt8} {rest : Bytes} {k : Nat} (hc : 128 ≤ c.toNat)
+    (hk : k ≠ 0) (kwf : WF (ofU8 ((c :: rest).take k))) : ∀ x ∈ (c :: rest).take k, 128 ≤ x.toNat := by
   cases k with
   | zero => exact absurd rfl hk
   | succ j =>
     rw [List.take_succ_cons] at kwf ⊢
-    intro hm
+    intro x hm
     rcases List.mem_cons.mp hm with h | h
-    · rw [← h] at hc; exact absurd hc (by decide)
+    · rw [h]; exact hc
     · rw [ofU8_cons] at kwf
-      have := WF_tail_ge _ _ kwf (0x5C : UInt8).toBitVec (by
-        unfold ofU8; exact List.mem_map.mpr ⟨_, h, rfl⟩)
-      exact absurd this (by decide)
+      exact WF_tail_ge _ _ kwf x.toBitVec (by unfold ofU8; exact List.mem_map.mpr ⟨_, h, rfl⟩)
+
+theorem chunk_no_meta {c : UInt8} {rest : Bytes} {k : Nat} (hc : 128 ≤ c.toNat)
+    (hk : k ≠ 0) (kwf : WF (ofU8 ((c :: rest).take k))) :
+    ∀ x ∈ (c :: rest).take k, x ≠ 0x22 ∧ x ≠ 0x5C := by
+  intro x hx
+  have := chunk_no_ascii hc hk kwf x hx
+  constructor <;> (intro h; rw [h] at this; exact absurd this (by decide))
 
 theorem scanString_spec (chk : Bool) : ∀ (f : Nat) (s : Bytes) (n0 : Nat) (e0 : Bool) (n : Nat) (e : Bool),
     scanString chk f s n0 e0 = .ok (n, e) → ScanOk chk s n0 e0 n e
@@ -118,14 +172,14 @@ theorem scanString_spec (chk : Bool) : ∀ (f : Nat) (s : Bytes) (n0 : Nat) (e0 
       have hx := examine_false (by simpa using hex)
       have ih := scanString_spec chk f rest (n0 + 1) e0 n e h
       exact ScanOk.plain (p := [c]) ih (fun _ => WFS_single c hx.2.2.2 hx.2.2.1)
-        (by simp only [List.mem_singleton]; exact fun e => hx.2.1 e.symm)
+        (by intro x hxm; simp only [List.mem_singleton] at hxm; subst hxm; exact ⟨hx.1, hx.2.1⟩)
     rw [if_neg hex] at h
     by_cases hq : (c == 0x22) = true
     · -- closing quote
       rw [if_pos hq] at h
       have hq : c = 0x22 := by simpa using hq
       cases h
-      exact ⟨[], rest, by rw [hq]; rfl, by simp, fun _ => WFS_nil, by simp⟩
+      exact ⟨[], rest, by rw [hq]; rfl, by simp, fun _ => WFS_nil, by simp, StrBody.nil⟩
     rw [if_neg hq] at h
     by_cases hb : (c == 0x5C) = true
     · -- backslash
@@ -151,9 +205,16 @@ theorem scanString_spec (chk : Bool) : ∀ (f : Nat) (s : Bytes) (n0 : Nat) (e0 
               subst this; exact WFS_single 0x22 (by decide) (by decide)
           exact ScanOk.escaped (p := [0x5C, d]) ih
             (fun _ => WFS_append (a := [0x5C]) (b := [d]) hbs hdw) (by simp)
+            (fun b _ _ sb => StrBody.esc d b sb)
         · rw [if_neg hd] at h
           have ih := scanString_spec chk f (d :: rest') (n0 + 1) true n e h
-          exact ScanOk.escaped (p := [0x5C]) ih (fun _ => hbs) (by simp)
+          have hd' : d ≠ 0x5C ∧ d ≠ 0x22 := by simpa using hd
+          refine ScanOk.escaped (p := [0x5C]) ih (fun _ => hbs) (by simp) ?_
+          intro b r eb sb
+          cases sb with
+          | nil => simp at eb; exact absurd eb.1 hd'.2
+          | plain c' r' _ _ sb' => exact StrBody.esc c' r' sb'
+          | esc d' r' _ => simp at eb; exact absurd eb.1 hd'.1
     rw [if_neg hb] at h
     have hcb : c ≠ 0x5C := by simpa using hb
     by_cases h80 : (c &&& 0x80 != 0) = true
@@ -168,7 +229,7 @@ theorem scanString_spec (chk : Bool) : ∀ (f : Nat) (s : Bytes) (n0 : Nat) (e0 
         have hsplit : c :: rest = (c :: rest).take (vseq (c :: rest)) ++ (c :: rest).drop (vseq (c :: rest)) :=
           (List.take_append_drop _ _).symm
         rw [hsplit]
-        refine ScanOk.plain ?_ (fun _ => WFS_chunk kwf k0) (chunk_no_backslash hc80 hk' kwf)
+        refine ScanOk.plain ?_ (fun _ => WFS_chunk kwf k0) (chunk_no_meta hc80 hk' kwf)
         rw [List.length_take, Nat.min_eq_left k1]
         exact ih
       · rw [if_neg hk] at h
@@ -176,8 +237,9 @@ theorem scanString_spec (chk : Bool) : ∀ (f : Nat) (s : Bytes) (n0 : Nat) (e0 
         · rw [if_pos hchk] at h; cases h
         · rw [if_neg hchk] at h
           have ih := scanString_spec chk f rest (n0 + 1) e0 n e h
+          have hcq : c ≠ 0x22 := by simpa using hq
           exact ScanOk.plain (p := [c]) ih (fun hc => absurd hc hchk)
-            (by simp only [List.mem_singleton]; exact fun e => hcb e.symm)
+            (by intro x hxm; simp only [List.mem_singleton] at hxm; subst hxm; exact ⟨hcq, hcb⟩)
     rw [if_neg h80] at h
     by_cases hnl : (c == 0x0A) = true
     · -- newline
@@ -185,19 +247,21 @@ theorem scanString_spec (chk : Bool) : ∀ (f : Nat) (s : Bytes) (n0 : Nat) (e0 
       have hnl : c = 0x0A := by simpa using hnl
       subst hnl
       have ih := scanString_spec chk f rest (n0 + 1) e0 n e h
-      exact ScanOk.plain (p := [0x0A]) ih (fun _ => WFS_single 0x0A (by decide) (by decide)) (by decide)
+      exact ScanOk.plain (p := [0x0A]) ih (fun _ => WFS_single 0x0A (by decide) (by decide))
+        (by intro x hxm; simp only [List.mem_singleton] at hxm; subst hxm; decide)
     · rw [if_neg hnl] at h; cases h
 
 theorem scanBody_spec {o : Opts} {src body rest : Bytes} {esc : Bool}
     (h : scanBody o src = .ok (body, esc, rest)) :
-    src = body ++ 0x22 :: rest ∧ (o.ignoreEnc = false → WFS body) ∧ esc = decide (0x5C ∈ body) := by
+    src = body ++ 0x22 :: rest ∧ (o.ignoreEnc = false → WFS body) ∧ esc = decide (0x5C ∈ body) ∧
+      StrBody body := by
   unfold scanBody at h
   cases hs : scanString (!o.ignoreEnc) (src.length + 1) src 0 false with
   | error e => simp [hs] at h
   | ok p =>
     obtain ⟨n, e⟩ := p
     simp only [hs] at h
-    obtain ⟨b, r, split, len, wf, hesc⟩ := scanString_spec _ _ _ _ _ _ _ hs
+    obtain ⟨b, r, split, len, wf, hesc, sb⟩ := scanString_spec _ _ _ _ _ _ _ hs
     have hn : n = b.length := by omega
     have e1 : src.take n = b := by rw [split, hn, List.take_left']; rfl
     have e2 : src.drop (n + 1) = r := by
@@ -205,7 +269,7 @@ theorem scanBody_spec {o : Opts} {src body rest : Bytes} {esc : Bool}
       have : b ++ 0x22 :: r = (b ++ [0x22]) ++ r := by simp
       rw [this, List.drop_left']; simp
     cases h
-    refine ⟨by rw [e1, e2]; exact split, fun hi => by rw [e1]; exact wf (by simp [hi]), ?_⟩
+    refine ⟨by rw [e1, e2]; exact split, fun hi => by rw [e1]; exact wf (by simp [hi]), ?_, by rw [e1]; exact sb⟩
     rw [e1, hesc]; simp
 
 end Usual.C02
